@@ -126,12 +126,15 @@ func NewRunner(c *config.Config, fetcher snippet.Fetcher) *Runner {
 		if err != nil {
 			r.message(red, "%s\n", err.Error())
 		}
-		r.snippets = snippets
-		if err := r.snippets.FetchLoggingEndpoint(fetcher); err != nil {
-			r.message(red, "%s\n", err.Error())
+		// When the fetch failed there are no snippets to use, and nothing to cache
+		if snippets != nil {
+			r.snippets = snippets
+			if err := r.snippets.FetchLoggingEndpoint(fetcher); err != nil {
+				r.message(red, "%s\n", err.Error())
+			}
+			// ...and save cache after the constructor
+			defer fetcher.WriteCache(snippets)
 		}
-		// ...and save cache after the constructor
-		defer fetcher.WriteCache(snippets)
 	}
 
 	// Set verbose level
